@@ -3,6 +3,7 @@
 # A property-preserving change: the patch must build and pass the suite, and
 # every named check must stay silent (exit 0) with it applied.
 export GOFLAGS=-mod=mod GOPROXY=off GOSUMDB=off GOTOOLCHAIN=local
+root="$(dirname "$(realpath "$0")")/.."
 dir="$(realpath "$1")"; shift
 wt="$(mktemp -d /tmp/tryneutral.XXXXXX)"
 git -C /repo worktree add --detach "$wt" HEAD >/dev/null 2>&1 || { echo "cannot create worktree"; exit 2; }
@@ -13,7 +14,7 @@ git apply "$dir/patch.diff" 2>"$wt.err" || { echo "NEUTRAL-INVALID: patch does n
 go build ./... >"$wt.err" 2>&1 || { echo "NEUTRAL-INVALID: does not build"; head -5 "$wt.err"; exit 3; }
 go test -vet=off -count=1 ./... >"$wt.err" 2>&1 || { echo "NEUTRAL-INVALID: existing tests fail"; grep -m3 -- "--- FAIL" "$wt.err"; exit 3; }
 echo "NEUTRAL-VALID: builds, suite passes"
-cd /verif
+cd "$root"
 # the checks run against the scratch worktree (./check's VERIF_REPO override):
 # /repo and /verif/evidence stay untouched
 for id in "$@"; do
